@@ -187,6 +187,8 @@ def fresh_of_kind(name, k):
         return VTuple([fresh_of_kind('%s.%d' % (name, i), x) for i, x in enumerate(k[1:])])
     if isinstance(k, tuple) and k[0] == 'str':      # opaque string
         return VStr([('opaque', fresh(name, I))])
+    if isinstance(k, tuple) and k[0] == 'map':
+        return VMap(fresh(name + '.has', z3.ArraySort(I, z3.ArraySort(I, B))), fresh(name + '.val', z3.ArraySort(I, z3.ArraySort(I, I))))
     if isinstance(k, tuple) and k[0] == 'joinstr':  # sep.join(list of element kind k[2])
         return VStr([('join', k[1], fresh_of_kind(name + '.items', ('list', k[2])))])
     raise ValueError('fresh_of_kind %r' % (k,))
@@ -208,6 +210,7 @@ def fresh_like(name, v):
     if isinstance(v, VList): return fresh_of_kind(name, ('list', v.kind))
     if isinstance(v, VTuple): return VTuple([fresh_like('%s.%d' % (name, i), x) for i, x in enumerate(v.items)])
     if isinstance(v, VNone): return v
+    if isinstance(v, VMap): return VMap(fresh(name + '.has', v.has.sort()), fresh(name + '.val', v.val.sort()))
     if isinstance(v, VStr): return VStr([('opaque', fresh(name, I))])
     raise TypeError('cannot havoc %r' % (v,))
 
